@@ -9,6 +9,8 @@ import (
 	"os/exec"
 	"path/filepath"
 	"strings"
+	"time"
+	"verif/atlasfake"
 
 	"verif/ev"
 	"verif/gen"
@@ -276,6 +278,9 @@ func C08() int {
 
 	// ---- CLI level
 	c08CLI(s, c, g, rng)
+
+	// ---- Atlas mode: the same promise for each downloaded log (a failure on any host's file is a failure of the run)
+	c08Atlas(s, c)
 
 	c.Set("race_reports", s.RaceReports())
 	c.Set("sut_statement_coverage_percent", s.CoverFuncs())
@@ -587,6 +592,83 @@ func c08Strace(s *sut.SUT, c *ev.Check, in string, F []byte) {
 		}
 		if !bytes.Equal(got, F) && r.Exit == 0 {
 			c.Violation("silent-truncation|strace-"+jb.kind, fmt.Sprintf("exit 0 although only %d of %d bytes arrived", len(got), len(F)), rp)
+		}
+	})
+}
+
+// c08Atlas: Atlas mode processes one downloaded file per host. A read or write
+// failure on ANY of them — a gzip payload that ends early or is not gzip, an
+// over-long line, an output file that cannot be created, a download cut
+// mid-body or answered with an error status — must end the run with a
+// non-zero status, and what <out>.<i> holds must be whole lines of host i's
+// correct redaction: complete for the hosts processed before the failure, a
+// prefix for the failing one.
+func c08Atlas(s *sut.SUT, c *ev.Check) {
+	faults := []string{"truncated-gzip", "over-long-line", "not-gzip", "output-path-is-a-directory", "cut-half", "status-500", "reset-before-headers"}
+	var cases []c17Case
+	for n := 2; n <= 3; n++ {
+		for k := 0; k < n; k++ {
+			for _, f := range faults {
+				cases = append(cases, c17Case{n, k, f})
+			}
+		}
+	}
+	parallelDo(len(cases), func(ci int) {
+		cs := cases[ci]
+		label := fmt.Sprintf("atlas n=%d k=%d %s", cs.n, cs.k+1, cs.fault)
+		cfg, _, raws, _ := c17Build(c.Seed+77, ci, cs)
+		srv, err := atlasfake.New(cfg)
+		if err != nil {
+			c.Inconclusive("fake endpoint: " + err.Error())
+			return
+		}
+		defer srv.Close()
+		dir := s.TempDir("c08a")
+		defer os.RemoveAll(dir)
+		outp := filepath.Join(dir, "out.log")
+		if cs.fault == "output-path-is-a-directory" {
+			os.MkdirAll(fmt.Sprintf("%s.%d", outp, cs.k), 0o755)
+		}
+		flags := [][]string{nil, {"-n", "-b"}}[ci%2]
+		env := append(atlasEnv(srv, dir), "ATLAS_PUBLIC_KEY="+atlasPub, "ATLAS_PRIVATE_KEY="+atlasPriv)
+		args := append([]string{"redact", "--atlasProjectId", cfg.Project, "--atlasClusterName", cfg.Cluster, "-o", outp}, flags...)
+		r := s.CLI(sut.Run{Args: args, Dir: dir, Env: env, Timeout: 3 * time.Minute})
+		if r.TimedOut {
+			c.Inconclusive("watchdog on an Atlas CLI run")
+			return
+		}
+		c.Count("atlas_fault_runs", 1)
+		c.Eval("cli|" + label)
+		rp := map[string]any{"kind": "atlas-fault", "level": "cli", "case": label, "exit": r.Exit, "stderr": short(bytes.TrimSpace(r.Stderr), 300)}
+		if len(srv.Log()) == 0 {
+			c.Inconclusive(label + ": the CLI never reached the fake endpoint")
+			return
+		}
+		if r.Exit == 0 {
+			c.Violation("silent|atlas|"+cs.fault, fmt.Sprintf("%s: the fault on host %d of %d was injected but the run exited 0 (stderr: %s)", label, cs.k+1, cs.n, short(bytes.TrimSpace(r.Stderr), 160)), rp)
+		}
+		downloadFault := cs.fault == "cut-half" || cs.fault == "status-500" || cs.fault == "reset-before-headers"
+		for i := 0; i < cs.n; i++ {
+			got, gerr := os.ReadFile(fmt.Sprintf("%s.%d", outp, i))
+			if gerr != nil {
+				continue // absent (or a directory): nothing was emitted there
+			}
+			if downloadFault {
+				// nothing may be redacted at all when a download failed; an output file, if any, is judged as a prefix
+			}
+			if raws[i] == nil {
+				if len(got) > 0 {
+					c.Violation("output-from-damaged-input|atlas", fmt.Sprintf("%s: %s.%d holds %d bytes although host %d's payload is not a gzip stream", label, filepath.Base(outp), i, len(got), i+1), rp)
+				}
+				continue
+			}
+			want, _ := expectRedaction(s, flags, raws[i])
+			c.Count("atlas_output_files_compared", 1)
+			if !bytes.HasPrefix(want, got) || !lineBoundary(got) {
+				c.Violation("not-a-prefix|atlas", fmt.Sprintf("%s: %s.%d (%d bytes) is not a whole-line prefix of the redaction of host %d's log (%d bytes)", label, filepath.Base(outp), i, len(got), i+1, len(want)), rp)
+			} else if i < cs.k && !downloadFault && r.Exit != 0 && !bytes.Equal(got, want) && len(got) > 0 {
+				c.Count("atlas_earlier_host_output_incomplete", 1)
+			}
 		}
 	})
 }
